@@ -952,18 +952,32 @@ impl IndexManager {
         truncated_key[..9.min(key_bytes.len())]
             .copy_from_slice(&key_bytes[..9.min(key_bytes.len())]);
 
-        if let Some(index) = self.indices.get_mut(&index_id) {
-            let tombstone = UpdateEntry::new(
+        let make_tombstone = || {
+            UpdateEntry::new(
                 truncated_key,
-                entry.archive_location,
+                entry.archive_location.clone(),
                 entry.size,
                 UpdateStatus::Delete,
-            );
-            index.update_section.append(tombstone);
-            return true;
+            )
+        };
+
+        match self.indices.get_mut(&index_id) {
+            Some(index) => {
+                if index.update_section.append(make_tombstone()) {
+                    return true;
+                }
+            }
+            None => return false,
         }
 
-        false
+        // Update section full -- the tombstone was not stored. Flush (merge into
+        // sorted), then retry, like add_entry; report the truth if that fails too.
+        if self.flush_updates_for_bucket(index_id).is_err() {
+            return false;
+        }
+        self.indices
+            .get_mut(&index_id)
+            .is_some_and(|index| index.update_section.append(make_tombstone()))
     }
 
     /// Check if an entry exists by encoding key
